@@ -711,6 +711,7 @@ def ob_glv():
     L = LinCtx(120000)
     I = eir_lin.LinInterp(P, L)
     I.lazy_feasibility = 1000
+    I.hard_feasibility = True
     install_lin_bigint(I, L, 256)
     ks = [L.var("k%d" % i, 64) for i in range(4)]
     K = L.const(0)
@@ -756,14 +757,14 @@ def ob_glv():
         pc = list(I.lin_pc)
         goal = z3.And((sgn(g["n0"]) * z0 + sgn(g["n1"]) * z1 * LAMBDA - zK) % R_ORDER == 0, z0 >= 0, z0 < (1 << 256), z1 >= 0, z1 < (1 << 256))
         vc = z3.Implies(z3.And(*pc) if pc else z3.BoolVal(True), goal)
-        ok = L.prove(vc, "glv")
+        ok = L.prove_portfolio(vc, "glv", 90)
         if ok is None:
             # lazy feasibility lets paths through whose condition the solver could not refute in its short budget (more of them on a loaded
-            # machine); decide the path condition with a long budget before spending it on the identity
-            feas = L.prove(z3.Not(z3.And(*pc)) if pc else z3.BoolVal(False), "glv path feasibility", 600000)
+            # machine); decide the path condition before spending more on the identity
+            feas = L.prove_portfolio(z3.Not(z3.And(*pc)) if pc else z3.BoolVal(False), "glv path feasibility", 90)
             if feas is True:
                 continue
-            ok = L.prove(vc, "glv (retry)", 900000)
+            ok = L.prove_portfolio(vc, "glv (retry)", 90, seeds=(101, 202, 303, 404))
         if ok is None:
             # undecided: look for a concrete counterexample by running the same IR on boundary scalars in concrete mode (a failure found
             # this way is replayed natively like a solver model); without one the obligation stays inconclusive
